@@ -13,8 +13,8 @@ TECHNIQUE = ("call-graph purity from parser::parse (with a positive control), MI
              "nullability fixpoint over the nom combinators deciding progress of every hand-written parser loop")
 EXPLANATION = (
     "Decides structural clauses of C09: (R1) nothing reachable from parser::parse touches files, environment, network, process, clock or randomness (same "
-    "text, same outcome; a positive control on the file loader proves the detector fires); (R2) the Ok(tree) exit of parse() is dominated by the "
-    "`remaining.len() != 0` test and taken only when the error log is empty; (R3) ParseString.cursor is written only by ParseString's own consume methods, "
+    "text, same outcome; a positive control on the file loader proves the detector fires); (R2) the Ok(tree) exit of parse() is dominated by a test of the "
+    "remaining input's length (len()/is_empty() in any spelling, also inside a private helper) and taken only when the error log is empty; (R3) ParseString.cursor is written only by ParseString's own consume methods, "
     "each advancing by the number of graphemes matched, and every column update adds a grapheme display width (never a byte length); (R4) no "
     "`Token::merge_tokens(..).unwrap()` on a token list that may be empty (many0 / opt); (R5) every hand-written loop in the parser has progress evidence: a "
     "consuming parser on its spine, consuming rebinds only, an explicit cursor comparison, or a counter; a loop that rebinds its input from a parser that is "
